@@ -86,3 +86,12 @@ _circuit_prop("C07", ["seen", "after", "rel", "fbsame"], "")
 _circuit_prop("C10", ["res", "conc", "open", "ev"], "")
 _circuit_prop("C09", ["ev", "open", "fan"], "")
 
+
+PROPS["C02"] = {
+    "components": [Seq("opener", 2500, 100000), CircuitSeq("C02", ["ev", "open"], 800, 30000)],
+    "rule": "opener: event sequences on hystrix.Opener / ConsecutiveErrOpener with boundary-directed (errors, attempts, pct, volume): 60% exact-percentage boundaries 100*e = pct*a nudged by -1/0/+1, "
+            "plus idle gaps, partial and full window roll-over, transitions, neutral kinds, live threshold changes, non-monotonic probes; non-trivial = at least one of those features; distinct by FNV hash. "
+            "circuit: the shared circuit histories with the built-in openers (fields ev, open)",
+    "trusted_base": TB_COMMON + ["modelled not verified: sequential atomics; the hystrix opener's start time pinned to the clock origin by the harness"],
+    "assumptions": ["the iff theorem is stated for non-negative, non-decreasing timestamps (one unambiguous window); other orders are covered by the model correspondence only"],
+}
